@@ -88,6 +88,10 @@ fn first_nonempty(c: &Case, m: usize) -> Option<usize> {
 
 /// Cause class of a case (used in signatures; never raw lengths).
 fn cause(c: &Case) -> &'static str {
+    // fixed leaves over an mdat that has exactly one byte beyond box offset 16 (fails for every history)
+    if c.e2e && c.leaf.is_some() && c.mdat_lens.iter().any(|l| l.saturating_sub(if c.large { 0 } else { 8 }) == 1) {
+        return "region-1-byte";
+    }
     let short_first = (0..c.mdat_lens.len()).any(|m| matches!(first_nonempty(c, m), Some(1..=8)) && c.feeds.iter().filter(|f| f.0 == m && f.1 > 0).count() > 1);
     if !c.large && short_first {
         return "first-nonempty-chunk<=8";
@@ -212,7 +216,7 @@ struct Res {
 fn sig(c: &Case, defect: &str) -> String {
     let cz = cause(c);
     // the empty-chunk class does not depend on the header form
-    let hdr = if cz == "empty-chunk" { "any-hdr" } else if c.large { "large-hdr" } else { "std-hdr" };
+    let hdr = if cz == "empty-chunk" || cz == "region-1-byte" { "any-hdr" } else if c.large { "large-hdr" } else { "std-hdr" };
     format!("{}|{}|{}|{}", hdr, if c.leaf.is_some() { "fixed" } else { "var" }, cz, defect)
 }
 
@@ -345,13 +349,18 @@ fn build_asset(c: &Case) -> Vec<u8> {
 }
 
 enum Flow {
-    Accepted(String),
+    /// accepted on the n-th read (1-based) out of `reads` attempts
+    Accepted(String, usize),
     NotValid(String, Vec<String>),
     ReadErr(String),
     Stage(&'static str, String),
     Panic(String),
     Harness(String),
 }
+
+/// How often a patched multi-mdat asset is re-read before it counts as rejected (the reader's
+/// verdict for such assets was observed to vary between reads of identical bytes).
+const MULTI_MDAT_READS: usize = 24;
 
 fn flow(c: &Case) -> Flow {
     let chunks = chunks_of(c);
@@ -362,8 +371,8 @@ fn flow(c: &Case) -> Flow {
         let ph = b.placeholder("video/mp4").map_err(|e| ("placeholder", report::err_kind(&e)))?;
         // upper bound for the number of leaves this history can create
         let nl: usize = match c.leaf {
-            Some(l) => c.mdat_lens.iter().map(|x| x / l + 2).sum(),
-            None => c.feeds.len() + 2,
+            Some(l) => c.mdat_lens.iter().map(|x| x / l + 2).sum::<usize>() + 2,
+            None => c.feeds.len() + 4,
         };
         let region_len = ph.len() + nl * (hash_len(c.alg) + 12) + 1024;
         let mut ins = if c.variant == 1 { ph.clone() } else { Vec::new() };
@@ -377,6 +386,10 @@ fn flow(c: &Case) -> Flow {
         }
         let mut cur = Cursor::new(asset.clone());
         b.update_hash_from_stream("video/mp4", &mut cur).map_err(|e| ("update_hash_from_stream", report::err_kind(&e)))?;
+        if c.update_twice {
+            let mut cur = Cursor::new(asset.clone());
+            b.update_hash_from_stream("video/mp4", &mut cur).map_err(|e| ("update_hash_from_stream", report::err_kind(&e)))?;
+        }
         let signed = b.sign_embeddable("video/mp4").map_err(|e| ("sign_embeddable", report::err_kind(&e)))?;
         Ok((asset, at, region_len, signed))
     });
@@ -393,24 +406,35 @@ fn flow(c: &Case) -> Flow {
     if asset[..at] != before[..at] || asset[at + region_len..] != before[at + region_len..] {
         return Flow::Harness("patch touched bytes outside the region".into());
     }
-    let ctx = match Context::new().with_settings(settings().as_str()) {
-        Ok(c) => c,
-        Err(e) => return Flow::Harness(format!("{e:?}")),
-    };
-    let o = report::read_bytes_catch(ctx, "mp4", &asset);
-    match o.state.as_str() {
-        "Valid" | "Trusted" => Flow::Accepted(o.state.clone()),
-        "Panic" => Flow::Panic(o.error.unwrap_or_default()),
-        "Err" => Flow::ReadErr(o.error.unwrap_or_default()),
-        _ => Flow::NotValid(o.state.clone(), o.failure_codes()),
+    let reads = if c.mdat_lens.len() > 1 { MULTI_MDAT_READS } else { 1 };
+    let mut last = Flow::Harness("no read".into());
+    for n in 1..=reads {
+        let ctx = match Context::new().with_settings(settings().as_str()) {
+            Ok(c) => c,
+            Err(e) => return Flow::Harness(format!("{e:?}")),
+        };
+        let o = report::read_bytes_catch(ctx, "mp4", &asset);
+        last = match o.state.as_str() {
+            "Valid" | "Trusted" => return Flow::Accepted(o.state.clone(), n),
+            "Panic" => return Flow::Panic(o.error.unwrap_or_default()),
+            "Err" => Flow::ReadErr(o.error.unwrap_or_default()),
+            _ => Flow::NotValid(o.state.clone(), o.failure_codes()),
+        };
     }
+    last
 }
 
 fn run_e2e(c: &Case) -> Res {
-    let class = format!("e2e|{}|v{}|{}", shape_class(c), c.variant, if c.moov_first { "moov-first" } else { "mdat-first" });
-    let mk = |outcome: String, v: Option<(String, String)>, inc: Option<String>| Res { class: format!("{class}|{outcome}"), outcome, violation: v, inconclusive: inc, leaves_seen: 0, judged: true };
+    let class = format!("e2e|{}|v{}|{}{}", shape_class(c), c.variant, if c.moov_first { "moov-first" } else { "mdat-first" }, if c.update_twice { "|update-twice" } else { "" });
+    let judged = !c.update_twice;
+    let mk = |outcome: String, v: Option<(String, String)>, inc: Option<String>| Res { class: format!("{class}|{outcome}"), outcome, violation: if judged { v } else { None }, inconclusive: inc, leaves_seen: 0, judged };
     match flow(c) {
-        Flow::Accepted(s) => mk(format!("read-{s}"), None, None),
+        Flow::Accepted(s, 1) => mk(format!("read-{s}"), None, None),
+        Flow::Accepted(s, n) => mk(
+            "read-order-dependent".into(),
+            Some(("multi-mdat|readback-order-dependent".to_string(), format!("asset with {} mdat boxes: identical bytes were rejected on {} read(s) and then read back {s}", c.mdat_lens.len(), n - 1))),
+            None,
+        ),
         Flow::NotValid(s, codes) => mk("readback-not-valid".into(), Some((sig(c, "readback-not-valid"), format!("patched asset reads back {s}, failures {codes:?}"))), None),
         Flow::ReadErr(e) => mk("readback-error".into(), Some((sig(c, "readback-not-valid"), format!("patched asset cannot be read: {e}"))), None),
         Flow::Stage(st, e) => mk(format!("{st}-error"), Some((sig(c, &format!("{st}-error")), format!("{st} failed with {e}"))), None),
@@ -591,6 +615,27 @@ fn main() {
     cases.push(base(true, Some(1024), vec![1100], vec![(0, 1), (0, 1099)], true, "directed"));
     cases.push(base(false, None, vec![41], vec![(0, 0), (0, 41)], true, "directed"));
 
+    // fixed leaves, one byte beyond box offset 16: rejected by the reader for every history
+    cases.push(base(false, Some(1024), vec![9], vec![(0, 9)], true, "directed"));
+    cases.push(base(true, Some(1024), vec![1], vec![(0, 1)], true, "directed"));
+    cases.push(base(true, Some(1024), vec![2], vec![(0, 2)], true, "directed"));
+    cases.push(base(false, None, vec![9], vec![(0, 9)], true, "directed"));
+    // two mdat boxes, one-shot feeds: the reader's verdict on identical bytes varies between reads
+    for i in 0..4 {
+        let mut c = base(i % 2 == 1, if i < 2 { None } else { Some(1024) }, vec![1500, 2600], vec![(0, 1500), (1, 2600)], true, "directed");
+        c.variant = (i % 2) as u8;
+        cases.push(c);
+    }
+    // negative histories (unjudged): update_hash_from_stream called twice
+    for &large in &[false, true] {
+        for &leaf in &[None, Some(1024usize)] {
+            for &len in &[1100usize, 1032, 2056] {
+                let mut c = base(large, leaf, vec![len], vec![(0, 20), (0, len - 20)], true, "directed");
+                c.update_twice = true;
+                cases.push(c);
+            }
+        }
+    }
     let grid_n = cases.len();
     let n_rand_acc = run.tier.pick(60_000, 1_500_000);
     let n_rand_e2e = run.tier.pick(6_000, 150_000);
@@ -617,8 +662,10 @@ fn main() {
         }
         if r.judged {
             run.nontrivial(r.class.clone());
+        } else if c.e2e {
+            run.count(&format!("unjudged:update-twice:{}", r.outcome), 1);
         } else {
-            run.count("unjudged:variable-leaves-at-accumulator-level", 1);
+            run.count(&format!("unjudged:variable-leaves-at-accumulator-level:{}:{}", cause(c), r.outcome), 1);
         }
         run.sample(&format!("{}:{}", if c.e2e { "e2e" } else { "acc" }, r.outcome), 2, case_json(c));
         if let Some((s, what)) = &r.violation {
